@@ -1539,6 +1539,7 @@ store_lop(vbi_decoder *vbi, const cache_page *vtp)
 		 && vbi_is_bcd(vtp->pgno) /* no hex numbers */);
 
 	event.ev.ttx_page.header_update = FALSE;
+	event.ev.ttx_page.clock_update = FALSE;
 	event.ev.ttx_page.raw_header = NULL;
 	event.ev.ttx_page.pn_offset = -1;
 
